@@ -42,6 +42,8 @@ enum Op {
     Human(usize),
     Values(u64),
     TypeTables(u64),
+    /// two extra threads build over shared nodes in one inference context
+    SharedContext(u64),
     DropShared,
 }
 
@@ -66,7 +68,7 @@ fn decode(p: &[u8], w: &[u8]) -> Option<Arc<RedeemNode>> {
 
 const HUMAN: [&str; 3] = ["main := comp unit unit", "main := comp (pair unit unit) unit", "main := comp (injl unit) (case unit unit)"];
 
-fn run_op(op: &Op, prog: &[u8], wit: &[u8], mine: &mut Option<Arc<RedeemNode>>) -> u64 {
+fn run_op(op: &Op, prog: &[u8], wit: &[u8], mine: &mut Option<Arc<RedeemNode>>, concurrent: bool) -> u64 {
     match op {
         Op::Decode => decode(prog, wit).map(|p| redeem_digest(&p)).unwrap_or(3),
         Op::DecodeFlipped(b) => {
@@ -172,6 +174,7 @@ fn run_op(op: &Op, prog: &[u8], wit: &[u8], mine: &mut Option<Arc<RedeemNode>>) 
             dig("values", &[&bits, &[u8::from(l.as_ref() == Some(&Value::u4(3)))], &[u8::from(a == b)]])
         }
         Op::TypeTables(seed) => type_tables_op(*seed),
+        Op::SharedContext(seed) => shared_context_op(*seed, concurrent),
         Op::DropShared => {
             *mine = None;
             2
@@ -257,9 +260,109 @@ fn type_tables_op(seed: u64) -> u64 {
     h.0
 }
 
+/// Two threads, one inference context (see the shuttle leg for the rationale): the constraint set
+/// is used only if it is satisfiable in both sequential orders.
+fn shared_context_op(seed: u64, concurrent: bool) -> u64 {
+    use simplicity::Cmr;
+    type N<'a> = Arc<ConstructNode<'a>>;
+    #[derive(Clone, Copy)]
+    struct Step {
+        kind: u8,
+        a: usize,
+        b: usize,
+    }
+    let mut r = Rng::new(seed);
+    let n_shared = r.urange(1, 3);
+    let leaf_kinds: Vec<u8> = (0..n_shared).map(|_| r.below(3) as u8).collect();
+    let gen_steps = |r: &mut Rng| -> Vec<Step> {
+        let n = r.urange(1, 3);
+        (0..n).map(|i| Step { kind: r.below(8) as u8, a: r.usize_below(n_shared + i), b: r.usize_below(n_shared + i) }).collect()
+    };
+    let steps_a = gen_steps(&mut r);
+    let steps_b = gen_steps(&mut r);
+    fn leaves<'b>(ctx: &types::Context<'b>, kinds: &[u8]) -> Vec<N<'b>> {
+        kinds
+            .iter()
+            .map(|k| match k {
+                0 => N::iden(ctx),
+                1 => simplicity::node::WitnessConstructible::witness(ctx, None),
+                _ => N::unit(ctx),
+            })
+            .collect()
+    }
+    fn build<'b>(shared: &[N<'b>], steps: &[Step]) -> (bool, Vec<N<'b>>) {
+        let mut own: Vec<N<'b>> = Vec::new();
+        for st in steps {
+            let pick = |i: usize, own: &Vec<N<'b>>| -> N<'b> {
+                if i < shared.len() || own.is_empty() {
+                    Arc::clone(&shared[i % shared.len()])
+                } else {
+                    Arc::clone(&own[(i - shared.len()) % own.len()])
+                }
+            };
+            let a = pick(st.a, &own);
+            let b = pick(st.b, &own);
+            let res: Result<N<'b>, types::Error> = match st.kind {
+                0 => N::comp(&a, &b),
+                1 => N::pair(&a, &b),
+                2 => N::case(&a, &b),
+                3 => N::assertl(&a, Cmr::from_byte_array([3; 32])),
+                4 => N::assertr(Cmr::from_byte_array([4; 32]), &a),
+                5 => Ok(N::injl(&a)),
+                6 => Ok(N::take(&a)),
+                _ => Ok(N::drop_(&a)),
+            };
+            match res {
+                Ok(n) => own.push(n),
+                Err(_) => return (false, own),
+            }
+        }
+        (true, own)
+    }
+    fn digest_nodes(h: &mut Fnv, nodes: &[N<'_>]) {
+        for n in nodes {
+            match n.arrow().finalize() {
+                Ok(a) => {
+                    h.bytes(a.source.tmr().as_ref());
+                    h.bytes(a.target.tmr().as_ref());
+                }
+                Err(_) => h.u8(0xee),
+            }
+        }
+    }
+    let sat = |first: &[Step], second: &[Step]| -> bool {
+        types::Context::with_context(|ctx| {
+            let sh = leaves(&ctx, &leaf_kinds);
+            build(&sh, first).0 && build(&sh, second).0
+        })
+    };
+    if !(sat(&steps_a, &steps_b) && sat(&steps_b, &steps_a)) {
+        return dig("shared-context-unsat", &[]);
+    }
+    types::Context::with_context(|ctx| {
+        let sh = leaves(&ctx, &leaf_kinds);
+        let (ra, rb) = if concurrent {
+            std::thread::scope(|s| {
+                let ha = s.spawn(|| build(&sh, &steps_a));
+                let hb = s.spawn(|| build(&sh, &steps_b));
+                (ha.join().expect("thread a"), hb.join().expect("thread b"))
+            })
+        } else {
+            (build(&sh, &steps_a), build(&sh, &steps_b))
+        };
+        let mut h = Fnv::new();
+        h.u8(u8::from(ra.0));
+        h.u8(u8::from(rb.0));
+        digest_nodes(&mut h, &sh);
+        digest_nodes(&mut h, &ra.1);
+        digest_nodes(&mut h, &rb.1);
+        h.0
+    })
+}
+
 fn gen_ops(r: &mut Rng, n: usize) -> Vec<Op> {
     (0..n)
-        .map(|_| match r.below(15) {
+        .map(|_| match r.below(17) {
             0 => Op::Decode,
             1 => Op::DecodeFlipped(r.usize_below(512)),
             2 => Op::DecodeCommit,
@@ -273,7 +376,8 @@ fn gen_ops(r: &mut Rng, n: usize) -> Vec<Op> {
             10 => Op::Human(r.usize_below(3)),
             11 => Op::Values(r.next_u64()),
             12 => Op::DropShared,
-            _ => Op::TypeTables(r.next_u64()),
+            13 | 14 => Op::TypeTables(r.next_u64()),
+            _ => Op::SharedContext(r.next_u64()),
         })
         .collect()
 }
@@ -293,7 +397,8 @@ fn gen_workload(verif_seed: u64, wl: u64) -> Workload {
         let plans: Vec<Vec<Op>> = (0..3)
             .map(|_| {
                 let mut v = vec![Op::TypeTables(r.next_u64())];
-                v.push(match r.below(3) {
+                v.push(match r.below(4) {
+                    3 => Op::SharedContext(r.next_u64()),
                     0 => Op::Values(r.next_u64()),
                     1 => Op::IllTyped(r.byte()),
                     _ => Op::Human(r.usize_below(3)),
@@ -339,7 +444,7 @@ fn main() {
             for ops in &w.plans {
                 let mut mine = shared.clone();
                 for op in ops {
-                    all.push(format!("{:016x}", run_op(op, &w.prog, &w.wit, &mut mine)));
+                    all.push(format!("{:016x}", run_op(op, &w.prog, &w.wit, &mut mine, false)));
                 }
             }
         }
@@ -372,7 +477,7 @@ fn main() {
                     mine = decode(&prog, &wit);
                 }
                 for (k, op) in ops.iter().enumerate() {
-                    let d = run_op(op, &prog, &wit, &mut mine);
+                    let d = run_op(op, &prog, &wit, &mut mine, true);
                     if expect.get(k) != Some(&d) {
                         println!(
                             "MIRI-LEG MISMATCH workload={} thread={} op={} {:?}: {:016x} concurrently, reference {:?}",
